@@ -4,9 +4,9 @@ not own.
 
 Every op line is self-contained:
 
-  op <id> <opname> <pkg> (cfg u s x v z l) <parts…>
+  op <id> <opname> <pkg> (cfg u s x v z l e r n) <parts…>
 
-`cfg` = the six model variant flags (unnamedFixed shadowFixed crossFixed voidFixed zeroFixed lhsFixed), parts
+`cfg` = the nine model variant flags (unnamedFixed shadowFixed crossFixed voidFixed zeroFixed lhsFixed errTypeFixed errRecvFixed typedNilFixed), parts
 are lists with a head atom:
   (ps (<name> Z<k>)…)   parameters, `<>` = unnamed, `_` = blank; Z<k> = type of the corpus table
                         (bound by a `ty Z<k> <wire type>` prelude line)
@@ -64,9 +64,9 @@ def bit : SExp → Option Bool
 def parseFlags (args : List SExp) : Option Flags := do
   let c ← findList args "cfg"
   match ← c.mapM bit with
-  | [u, s, x, v, z, l] =>
+  | [u, s, x, v, z, l, e, r, n] =>
     some { plumb := { unnamedFixed := u, shadowFixed := s, crossFixed := x, voidFixed := v },
-           chain := { zeroFixed := z, lhsFixed := l } }
+           chain := { zeroFixed := z, lhsFixed := l, errTypeFixed := e, errRecvFixed := r, typedNilFixed := n } }
   | _ => none
 
 def tyId : SExp → Option Nat
@@ -116,9 +116,32 @@ def showOut : Plumb.Out Nat → String
 
 abbrev Err := Nat × Nat
 
+/-- error number 999 of the caller = a nil custom error inside a non-nil `error` -/
+def typedNil : Err := (9, 999)
+
 def showErr : Option Err → String
   | none => "nil"
-  | some (s, k) => s!"{s}.{k}"
+  | some (s, k) => if (s, k) == typedNil then "typednil" else s!"{s}.{k}"
+
+/-- `(errty <name> result|arg)`: a custom type in place of `error` -/
+def parseErrTy (args : List SExp) : Option (Option (ErrChain.ErrTy × Bool)) :=
+  match findList args "errty" with
+  | none => some none
+  | some [.atom n, .atom pos] => do
+    let t ← match n with
+      | "errs" => some ErrChain.ErrTy.namedNilable
+      | "errv" => some .namedStruct
+      | "errp" => some .namedPtrRecv
+      | "perrp" => some .pointerToNamed
+      | "miss4" => some .namedIface
+      | "miss1" | "miss2" | "miss3" | "miss5" => some .nearMiss
+      | _ => none
+    let isArg ← match pos with
+      | "arg" => some true
+      | "result" => some false
+      | _ => none
+    some (some (t, isArg))
+  | _ => none
 
 def showLog (log : ErrChain.Log Nat) : String :=
   joinWith "|" (log.map fun (i, a) => s!"{i}:{showNats "." a}")
@@ -160,6 +183,17 @@ def answer (wfOk : Bool) (model spec : String) : String :=
 
 def buildAnswer (wfOk : Bool) (why : String) : String :=
   if wfOk then "model=g0.c1 spec=g0.c1" else s!"model=g0.c0 spec=g0.c1 why={why}"
+
+/-- build answer of a class with a custom type in place of `error`: does the generator accept it, does
+the package then compile; the specification: accepted and usable iff the type implements error (a clean
+refusal of `*E` / a named interface is tolerated: the generator only knows named types with methods) -/
+def buildAnswerErr (cfg : ErrChain.Cfg) (t : ErrChain.ErrTy) (isArg restOk : Bool) : String :=
+  let accept := ErrChain.isError cfg t
+  let compiles := accept && restOk && (if isArg then ErrChain.argPosCompiles t else ErrChain.resultPosCompiles cfg t)
+  let model := if !accept then "g1.c0" else if compiles then "g0.c1" else "g0.c0"
+  let spec := if ErrChain.implementsError t && t != .pointerToNamed && t != .namedIface then "g0.c1" else "g1.c0"
+  let why := if t == .namedPtrRecv then "errrecv" else "errtype"
+  if model == spec then s!"model={model} spec={spec}" else s!"model={model} spec={spec} why={why}"
 
 /-- the failing stage of the op line: `(fail s k)` or `(fail)` -/
 def parseFail (args : List SExp) : Option (Option Err) := do
@@ -311,7 +345,14 @@ def runChain (s : DState) (fl : Flags) (name : String) (args : List SExp) : Opti
       | [k] => some (some (9, k))
       | _ => none
     let f := stage s fail 1 outs
-    some (answer ok (showResult (ErrChain.joinE (zerosFor outs) f errin)) (showResult (Spec.joinESpec (zerosFor outs) f errin)))
+    -- a custom error VALUE: "no error" is the nil value of the custom type, which the helper receives
+    -- inside a non-nil `error` (unless repaired); the specification sees no error
+    let custom ← parseErrTy args
+    let errModel := match custom, errin with
+      | some (.namedNilable, true), none => if fl.chain.typedNilFixed then none else some typedNil
+      | _, e => e
+    let why := if errModel == some typedNil then " why=typednil" else ""
+    some (answer ok (showResult (ErrChain.joinE (zerosFor outs) f errModel)) (showResult (Spec.joinESpec (zerosFor outs) f errin)) ++ why)
   | "bind" =>
     let a ← parseTyIds args "in"
     let outs ← parseTyIds args "outs"
@@ -384,7 +425,9 @@ def run (s : DState) (name : String) (args : List SExp) : Option String :=
             some (buildAnswer ok why)
           else
             let (ok, why) ← chainWf s fl kind args
-            some (buildAnswer ok why)
+            match ← parseErrTy args with
+            | some (t, isArg) => some (buildAnswerErr fl.chain t isArg ok)
+            | none => some (buildAnswer ok why)
         | _ => none
       else if plumbOps.contains name then runPlumb s fl name args
       else runChain s fl name args
